@@ -107,11 +107,28 @@ def seeded_mutants():
     return out
 
 
+def neutral_patches():
+    """behaviour-preserving refactors written by independent sub-agents (stored under /verif/neutral/<id>/patch.diff with
+    the author's note): every check must stay silent on each of them"""
+    here = os.path.dirname(os.path.dirname(os.path.abspath(__file__)))
+    nd = os.path.join(here, "neutral")
+    out = []
+    if not os.path.isdir(nd):
+        return out
+    for name in sorted(os.listdir(nd)):
+        patch = os.path.join(nd, name, "patch.diff")
+        if not os.path.exists(patch) or os.path.exists(os.path.join(nd, name, "NOT-NEUTRAL")):
+            continue
+        out.append({"id": "neutral:" + name, "kind": "neutral", "props": [], "what": "independent refactor " + name,
+                    "edits": [], "patch": patch})
+    return out
+
+
 def selftest(repo="/repo", props=None, kind=None, jobs=None, only=None, verbose=True):
     from .mutants import MUTANTS
     from .rules import REGISTRY
     allprops = sorted(REGISTRY)
-    MUTANTS = list(MUTANTS) + seeded_mutants()
+    MUTANTS = list(MUTANTS) + seeded_mutants() + neutral_patches()
     tasks = []
     for m in MUTANTS:
         if only and m["id"] not in only:
